@@ -18,6 +18,7 @@ CONSTANTS
   MaxDamage = 1
   DamageKinds = {"crc"}
   CrcQuarantinesBlock = TRUE
+  MinOpsBeforeCrash = 0
 INIT MCInit
 NEXT MCNext
 INVARIANTS VerdictOk BatchAtomic BufInv
